@@ -36,6 +36,8 @@ def cases(tier, seed):
     for o in ('triangle', 'segment'):
         for pos in ([[]] if q else [[], [1], [3], [5]]):
             out.append(dict(layer='L0', nra_at_decide=False, fn='grdp', curve='tie7', pos=pos, distance='shortest', order=o, metric='smape', mps=[0, 7]))
+    for o in ('segment', 'area'):
+        out.append(dict(layer='L0', nra_at_decide=False, fn='grdp', curve='chord4', pos=[], distance='shortest', order=o, metric='smape', t_hint='1/10'))
     for pos in ([[]] if q else [[], [2], [3]]):
         out.append(dict(layer='L0', nra_at_decide=False, fn='grdp', curve='bump6', pos=pos, distance='shortest', order='segment', metric='smape', t_hint='3/10'))
     if not q:
@@ -90,7 +92,7 @@ def run(h, case):
         if case.get('fixed_distances'):
             # concrete tent-shaped distances (split in the middle): only the ordering scores, the global costs and t stay free,
             # which keeps the path count small enough to reach three and more pending segments (ties between non-sibling segments)
-            st.d = lambda l, r, i: Fr(min(i - l, r - i))
+            st.d = lambda l, r, i, chord='': Fr(min(i - l, r - i))
         ctxm = patched(h, st, requested=case.get('distance', 'shortest'))
         G = st.G
     else:
